@@ -1,1 +1,244 @@
-// harnesses for this module (included by the isomer_erbium_verif hook)
+// Kani harnesses for crates/erbium-net/src/packet.rs (C12: Ethernet/IPv4/UDP framing).
+#[cfg(kani)]
+mod k {
+    use super::super::*;
+
+    // independent one's-complement sum over big-endian 16-bit words (odd tail padded with zero)
+    fn ocsum(data: &[u8], mut acc: u64) -> u64 {
+        let mut i = 0;
+        while i + 1 < data.len() {
+            acc += ((data[i] as u64) << 8) | data[i + 1] as u64;
+            i += 2;
+        }
+        if i < data.len() {
+            acc += (data[i] as u64) << 8;
+        }
+        acc
+    }
+    fn w(d: &[u8], i: usize) -> u64 {
+        ((d[i] as u64) << 8) | d[i + 1] as u64
+    }
+    // 20-byte IPv4 header, unrolled (keeps the harness's own loops below the unwind bound of the code under test)
+    fn ocsum20(d: &[u8]) -> u64 {
+        w(d, 0) + w(d, 2) + w(d, 4) + w(d, 6) + w(d, 8) + w(d, 10) + w(d, 12) + w(d, 14) + w(d, 16) + w(d, 18)
+    }
+    fn fold(mut acc: u64) -> u16 {
+        while acc > 0xffff {
+            acc = (acc >> 16) + (acc & 0xffff);
+        }
+        acc as u16
+    }
+
+    struct In<const N: usize> {
+        payload: [u8; N],
+        sip: u32,
+        dip: u32,
+        sport: u16,
+        dport: u16,
+        smac: [u8; 6],
+        dmac: [u8; 6],
+    }
+
+    fn build<const N: usize>() -> (In<N>, Vec<u8>) {
+        let i = In::<N> {
+            payload: kani::any(),
+            sip: kani::any(),
+            dip: kani::any(),
+            sport: kani::any(),
+            dport: kani::any(),
+            smac: kani::any(),
+            dmac: kani::any(),
+        };
+        let src = Inet4Addr::from(net::SocketAddrV4::new(net::Ipv4Addr::from(i.sip), i.sport));
+        let dst = Inet4Addr::from(net::SocketAddrV4::new(net::Ipv4Addr::from(i.dip), i.dport));
+        let f = Fragment::new_udp4(src, &i.smac, dst, &i.dmac, Tail::Payload(&i.payload));
+        let b = f.flatten();
+        std::mem::forget(f);
+        (i, b)
+    }
+
+    // layout, lengths, addresses, ports, payload (no checksum reasoning)
+    fn frame_layout<const N: usize>() {
+        let (inp, b) = build::<N>();
+        assert!(b.len() == 14 + 20 + 8 + N, "frame length = eth + ip + udp + payload");
+        let mut i = 0;
+        while i < 6 {
+            assert!(b[i] == inp.dmac[i], "ethernet destination");
+            assert!(b[6 + i] == inp.smac[i], "ethernet source");
+            i += 1;
+        }
+        assert!(b[12] == 0x08 && b[13] == 0x00, "ethertype IPv4");
+        let ip = &b[14..34];
+        assert!(ip[0] == 0x45, "version 4, ihl 5");
+        assert!(((ip[2] as usize) << 8 | ip[3] as usize) == 20 + 8 + N, "ipv4 total length");
+        assert!(ip[6] & 0x20 == 0 && ip[6] & 0x1f == 0 && ip[7] == 0, "not a fragment (MF clear, offset 0)");
+        assert!(ip[8] >= 1, "ttl non-zero");
+        assert!(ip[9] == 17, "protocol UDP");
+        let s = inp.sip.to_be_bytes();
+        let d = inp.dip.to_be_bytes();
+        i = 0;
+        while i < 4 {
+            assert!(ip[12 + i] == s[i], "ipv4 source address");
+            assert!(ip[16 + i] == d[i], "ipv4 destination address");
+            i += 1;
+        }
+        let udp = &b[34..];
+        assert!(((udp[0] as u16) << 8 | udp[1] as u16) == inp.sport, "udp source port");
+        assert!(((udp[2] as u16) << 8 | udp[3] as u16) == inp.dport, "udp destination port");
+        assert!(((udp[4] as usize) << 8 | udp[5] as usize) == 8 + N, "udp length");
+        i = 0;
+        while i < N {
+            assert!(udp[8 + i] == inp.payload[i], "payload unmodified");
+            i += 1;
+        }
+        kani::cover!(inp.sport != inp.dport, "distinct ports");
+        std::mem::forget(b);
+    }
+
+    fn frame_ipck<const N: usize>() {
+        let (_inp, b) = build::<N>();
+        kani::cover!(b[24] != 0 || b[25] != 0, "non-zero header checksum");
+        assert!(fold(ocsum20(&b[14..34])) == 0xffff, "ipv4 header checksum verifies");
+        std::mem::forget(b);
+    }
+
+    fn frame_udpck<const N: usize>() {
+        let (inp, b) = build::<N>();
+        let udp = &b[34..];
+        let ck = (udp[6] as u16) << 8 | udp[7] as u16;
+        let mut acc = (inp.sip >> 16) as u64 + (inp.sip & 0xffff) as u64 + (inp.dip >> 16) as u64 + (inp.dip & 0xffff) as u64;
+        acc += 17 + (8 + N) as u64;
+        acc += w(udp, 0) + w(udp, 2) + w(udp, 4) + w(udp, 6);
+        acc = ocsum(&udp[8..], acc);
+        kani::cover!(ck != 0, "checksum present");
+        assert!(fold(acc) == 0xffff, "udp checksum verifies over pseudo-header + segment");
+        std::mem::forget(b);
+    }
+
+    /// VERIF: {"p":"C12","tier":"quick","fns":["packet::Fragment::new_udp4","packet::Fragment::new_ipv4","packet::Fragment::new_ethernet","packet::Fragment::flatten","packet::partial_netsum","packet::finish_netsum"],"bounds":"payload of 0 symbolic bytes; all addresses, ports and MAC addresses symbolic","oracle":"frame length, MACs, ethertype, IPv4 version/ihl/total length/fragment fields/ttl/protocol/addresses, UDP ports/length, payload bytes unchanged","covers":1,"unwind":12}
+    #[kani::proof]
+    #[kani::unwind(12)]
+    fn c12_udp4_frame_layout_p0() {
+        frame_layout::<0>();
+    }
+
+    /// VERIF: {"p":"C12","tier":"quick","fns":["packet::Fragment::new_udp4","packet::Fragment::new_ipv4","packet::Fragment::new_ethernet","packet::Fragment::flatten","packet::partial_netsum","packet::finish_netsum"],"bounds":"payload of 0 symbolic bytes; all addresses, ports and MAC addresses symbolic","oracle":"IPv4 header checksum verifies (RFC 1071 sum over the 20 header bytes == 0xffff), computed by an independent summation","covers":1,"unwind":12}
+    #[kani::proof]
+    #[kani::unwind(12)]
+    fn c12_udp4_frame_ipck_p0() {
+        frame_ipck::<0>();
+    }
+
+    /// VERIF: {"p":"C12","tier":"quick","fns":["packet::Fragment::new_udp4","packet::Fragment::new_ipv4","packet::Fragment::new_ethernet","packet::Fragment::flatten","packet::partial_netsum","packet::finish_netsum"],"bounds":"payload of 0 symbolic bytes; all addresses, ports and MAC addresses symbolic","oracle":"UDP checksum verifies over pseudo-header + segment (RFC 768), computed by an independent summation","covers":1,"unwind":12}
+    #[kani::proof]
+    #[kani::unwind(12)]
+    fn c12_udp4_frame_udpck_p0() {
+        frame_udpck::<0>();
+    }
+
+    /// VERIF: {"p":"C12","tier":"quick","fns":["packet::Fragment::new_udp4","packet::Fragment::new_ipv4","packet::Fragment::new_ethernet","packet::Fragment::flatten","packet::partial_netsum","packet::finish_netsum"],"bounds":"payload of 1 symbolic bytes; all addresses, ports and MAC addresses symbolic","oracle":"frame length, MACs, ethertype, IPv4 version/ihl/total length/fragment fields/ttl/protocol/addresses, UDP ports/length, payload bytes unchanged","covers":1,"unwind":12}
+    #[kani::proof]
+    #[kani::unwind(12)]
+    fn c12_udp4_frame_layout_p1() {
+        frame_layout::<1>();
+    }
+
+    /// VERIF: {"p":"C12","tier":"quick","fns":["packet::Fragment::new_udp4","packet::Fragment::new_ipv4","packet::Fragment::new_ethernet","packet::Fragment::flatten","packet::partial_netsum","packet::finish_netsum"],"bounds":"payload of 1 symbolic bytes; all addresses, ports and MAC addresses symbolic","oracle":"IPv4 header checksum verifies (RFC 1071 sum over the 20 header bytes == 0xffff), computed by an independent summation","covers":1,"unwind":12}
+    #[kani::proof]
+    #[kani::unwind(12)]
+    fn c12_udp4_frame_ipck_p1() {
+        frame_ipck::<1>();
+    }
+
+    /// VERIF: {"p":"C12","tier":"quick","fns":["packet::Fragment::new_udp4","packet::Fragment::new_ipv4","packet::Fragment::new_ethernet","packet::Fragment::flatten","packet::partial_netsum","packet::finish_netsum"],"bounds":"payload of 1 symbolic bytes; all addresses, ports and MAC addresses symbolic","oracle":"UDP checksum verifies over pseudo-header + segment (RFC 768), computed by an independent summation","covers":1,"unwind":12}
+    #[kani::proof]
+    #[kani::unwind(12)]
+    fn c12_udp4_frame_udpck_p1() {
+        frame_udpck::<1>();
+    }
+
+    /// VERIF: {"p":"C12","tier":"quick","fns":["packet::Fragment::new_udp4","packet::Fragment::new_ipv4","packet::Fragment::new_ethernet","packet::Fragment::flatten","packet::partial_netsum","packet::finish_netsum"],"bounds":"payload of 2 symbolic bytes; all addresses, ports and MAC addresses symbolic","oracle":"frame length, MACs, ethertype, IPv4 version/ihl/total length/fragment fields/ttl/protocol/addresses, UDP ports/length, payload bytes unchanged","covers":1,"unwind":12}
+    #[kani::proof]
+    #[kani::unwind(12)]
+    fn c12_udp4_frame_layout_p2() {
+        frame_layout::<2>();
+    }
+
+    /// VERIF: {"p":"C12","tier":"quick","fns":["packet::Fragment::new_udp4","packet::Fragment::new_ipv4","packet::Fragment::new_ethernet","packet::Fragment::flatten","packet::partial_netsum","packet::finish_netsum"],"bounds":"payload of 2 symbolic bytes; all addresses, ports and MAC addresses symbolic","oracle":"IPv4 header checksum verifies (RFC 1071 sum over the 20 header bytes == 0xffff), computed by an independent summation","covers":1,"unwind":12}
+    #[kani::proof]
+    #[kani::unwind(12)]
+    fn c12_udp4_frame_ipck_p2() {
+        frame_ipck::<2>();
+    }
+
+    /// VERIF: {"p":"C12","tier":"quick","fns":["packet::Fragment::new_udp4","packet::Fragment::new_ipv4","packet::Fragment::new_ethernet","packet::Fragment::flatten","packet::partial_netsum","packet::finish_netsum"],"bounds":"payload of 2 symbolic bytes; all addresses, ports and MAC addresses symbolic","oracle":"UDP checksum verifies over pseudo-header + segment (RFC 768), computed by an independent summation","covers":1,"unwind":12}
+    #[kani::proof]
+    #[kani::unwind(12)]
+    fn c12_udp4_frame_udpck_p2() {
+        frame_udpck::<2>();
+    }
+
+    /// VERIF: {"p":"C12","tier":"thorough","fns":["packet::Fragment::new_udp4","packet::Fragment::new_ipv4","packet::Fragment::new_ethernet","packet::Fragment::flatten","packet::partial_netsum","packet::finish_netsum"],"bounds":"payload of 3 symbolic bytes; all addresses, ports and MAC addresses symbolic","oracle":"frame length, MACs, ethertype, IPv4 version/ihl/total length/fragment fields/ttl/protocol/addresses, UDP ports/length, payload bytes unchanged","covers":1,"unwind":12}
+    #[kani::proof]
+    #[kani::unwind(12)]
+    fn c12_udp4_frame_layout_p3() {
+        frame_layout::<3>();
+    }
+
+    /// VERIF: {"p":"C12","tier":"thorough","fns":["packet::Fragment::new_udp4","packet::Fragment::new_ipv4","packet::Fragment::new_ethernet","packet::Fragment::flatten","packet::partial_netsum","packet::finish_netsum"],"bounds":"payload of 3 symbolic bytes; all addresses, ports and MAC addresses symbolic","oracle":"IPv4 header checksum verifies (RFC 1071 sum over the 20 header bytes == 0xffff), computed by an independent summation","covers":1,"unwind":12}
+    #[kani::proof]
+    #[kani::unwind(12)]
+    fn c12_udp4_frame_ipck_p3() {
+        frame_ipck::<3>();
+    }
+
+    /// VERIF: {"p":"C12","tier":"thorough","fns":["packet::Fragment::new_udp4","packet::Fragment::new_ipv4","packet::Fragment::new_ethernet","packet::Fragment::flatten","packet::partial_netsum","packet::finish_netsum"],"bounds":"payload of 3 symbolic bytes; all addresses, ports and MAC addresses symbolic","oracle":"UDP checksum verifies over pseudo-header + segment (RFC 768), computed by an independent summation","covers":1,"unwind":12}
+    #[kani::proof]
+    #[kani::unwind(12)]
+    fn c12_udp4_frame_udpck_p3() {
+        frame_udpck::<3>();
+    }
+
+    /// VERIF: {"p":"C12","tier":"thorough","fns":["packet::Fragment::new_udp4","packet::Fragment::new_ipv4","packet::Fragment::new_ethernet","packet::Fragment::flatten","packet::partial_netsum","packet::finish_netsum"],"bounds":"payload of 4 symbolic bytes; all addresses, ports and MAC addresses symbolic","oracle":"frame length, MACs, ethertype, IPv4 version/ihl/total length/fragment fields/ttl/protocol/addresses, UDP ports/length, payload bytes unchanged","covers":1,"unwind":12}
+    #[kani::proof]
+    #[kani::unwind(12)]
+    fn c12_udp4_frame_layout_p4() {
+        frame_layout::<4>();
+    }
+
+    /// VERIF: {"p":"C12","tier":"thorough","fns":["packet::Fragment::new_udp4","packet::Fragment::new_ipv4","packet::Fragment::new_ethernet","packet::Fragment::flatten","packet::partial_netsum","packet::finish_netsum"],"bounds":"payload of 4 symbolic bytes; all addresses, ports and MAC addresses symbolic","oracle":"IPv4 header checksum verifies (RFC 1071 sum over the 20 header bytes == 0xffff), computed by an independent summation","covers":1,"unwind":12}
+    #[kani::proof]
+    #[kani::unwind(12)]
+    fn c12_udp4_frame_ipck_p4() {
+        frame_ipck::<4>();
+    }
+
+    /// VERIF: {"p":"C12","tier":"thorough","fns":["packet::Fragment::new_udp4","packet::Fragment::new_ipv4","packet::Fragment::new_ethernet","packet::Fragment::flatten","packet::partial_netsum","packet::finish_netsum"],"bounds":"payload of 4 symbolic bytes; all addresses, ports and MAC addresses symbolic","oracle":"UDP checksum verifies over pseudo-header + segment (RFC 768), computed by an independent summation","covers":1,"unwind":12}
+    #[kani::proof]
+    #[kani::unwind(12)]
+    fn c12_udp4_frame_udpck_p4() {
+        frame_udpck::<4>();
+    }
+
+    /// VERIF: {"p":"C12","tier":"thorough","fns":["packet::Fragment::new_udp4","packet::Fragment::new_ipv4","packet::Fragment::new_ethernet","packet::Fragment::flatten","packet::partial_netsum","packet::finish_netsum"],"bounds":"payload of 7 symbolic bytes; all addresses, ports and MAC addresses symbolic","oracle":"frame length, MACs, ethertype, IPv4 version/ihl/total length/fragment fields/ttl/protocol/addresses, UDP ports/length, payload bytes unchanged","covers":1,"unwind":12}
+    #[kani::proof]
+    #[kani::unwind(12)]
+    fn c12_udp4_frame_layout_p7() {
+        frame_layout::<7>();
+    }
+
+    /// VERIF: {"p":"C12","tier":"thorough","fns":["packet::Fragment::new_udp4","packet::Fragment::new_ipv4","packet::Fragment::new_ethernet","packet::Fragment::flatten","packet::partial_netsum","packet::finish_netsum"],"bounds":"payload of 7 symbolic bytes; all addresses, ports and MAC addresses symbolic","oracle":"IPv4 header checksum verifies (RFC 1071 sum over the 20 header bytes == 0xffff), computed by an independent summation","covers":1,"unwind":12}
+    #[kani::proof]
+    #[kani::unwind(12)]
+    fn c12_udp4_frame_ipck_p7() {
+        frame_ipck::<7>();
+    }
+
+    /// VERIF: {"p":"C12","tier":"thorough","fns":["packet::Fragment::new_udp4","packet::Fragment::new_ipv4","packet::Fragment::new_ethernet","packet::Fragment::flatten","packet::partial_netsum","packet::finish_netsum"],"bounds":"payload of 7 symbolic bytes; all addresses, ports and MAC addresses symbolic","oracle":"UDP checksum verifies over pseudo-header + segment (RFC 768), computed by an independent summation","covers":1,"unwind":12}
+    #[kani::proof]
+    #[kani::unwind(12)]
+    fn c12_udp4_frame_udpck_p7() {
+        frame_udpck::<7>();
+    }
+
+}
